@@ -93,10 +93,17 @@ def _model_runs(cfg, wd, eoc, avc, workers):
             s = s.replace(a, b)
         c.write_text(s)
         r = model_check("C08_Infer", c, wd=wd / ("mc_model_%d" % rnd), workers=workers, timeout=7200)
-        last = r
         new = [i for i in r.violated if i in todo]
         if not new:
+            last = last or r
             break
+        # keep the counterexamples (TLC output without the parser chatter) of every violating run
+        cex = "\n".join(ln for ln in r.out.splitlines() if not ln.startswith(("Parsing ", "Semantic ", "Linting ")))
+        if last is None:
+            last = r
+            last.out = cex
+        else:
+            last.out += "\n" + cex
         violated += new
     return last, violated
 
@@ -181,6 +188,7 @@ def run(rep, tier):
         ri = f.result()
         rep.add_mc("C08_InferImpl", ri, "%s ExactOccursCheck=%s" % (c, eoc))
         if ri.violated:
+            ri.out = "\n".join(ln for ln in ri.out.splitlines() if not ln.startswith(("Parsing ", "Semantic ", "Linting ")))
             rep.design_violation("C08_InferImpl", ri)
     _log("I done")
     for z, f in f_model:
